@@ -55,6 +55,13 @@ OPS = [
      "typeof ga === 'object' ? ga.map(function (x) { var s = 0; for (var k = 0; k < 60; k++) { s += k } return s }).length : 'noga'", "value", {}),
     ("kept array: callback loops forever", "time",
      "typeof ga === 'object' ? ga.map(function () { while (true) { } }) : (function () { while (true) { } })()", "time", {}),
+    # the built-in methods themselves kept in globals (plain and bound), used by later evaluations
+    ("keep methods", None, "var kEach = [].forEach, kMap = [1, 2].map, kUp = 'x'.toUpperCase, kBound = [].forEach.bind([4, 5]); 0", "value", {"km": 1}),
+    ("kept methods: call, callbacks throw inside try", None,
+     "typeof kEach === 'function' ? (function () { var n = 0; kEach.call([1, 2, 3], function (x) { n += x }); kBound(function (x) { n += x }); "
+     "var t; try { kMap(function () { throw new Error('e') }) } catch (e) { t = 'caught' + e.message } "
+     "try { kBound(function () { return null.p }) } catch (e) { t += e.name } return n + t + kUp.call('ab') + kMap(function (x) { return x * 2 }).join() })() : 'nokm'",
+     "value", {}),
     ("set a=11", None, ("set", "a", 11), "value", {"a": 11}),
     ("a=12, loop forever inside try", "time", "a = 12; try { while (true) { } } catch (e) { a = -1 } finally { a = -2 }", "time", {"a": 12}),
     ("a=13, recurse forever inside try", "limit", "a = 13; try { (function r() { return 1 + r() })() } catch (e) { a = -1 }", "limit", {"a": 13}),
@@ -75,7 +82,7 @@ EVAL_PROBES = [("f", "typeof f === 'function' ? f() : 'nofn'"), ("zz", "var o = 
 
 def initial(n):
     return tuple(tuple(sorted({"a": None, "b": None, "c": None, "f": None, "zz": None, "yy": None, "pi": None,
-                               "re": None, "cy": None, "ga": None}.items())) for _ in range(n))
+                               "re": None, "cy": None, "ga": None, "km": None}.items())) for _ in range(n))
 
 
 def enabled(op, cfg):
